@@ -73,6 +73,10 @@ def classify(rec, clauses):
 
 def run(ctx):
     thorough = ctx.tier == "thorough"
+    # theorems about where the array lands (every one- and two-axis grid, every pair of positions); the unguarded
+    # variant must be refuted (left -> right is not a shift)
+    ctx.mc("MC_InterpLike", "MC_InterpLike.cfg", workers=4)
+    ctx.mc("MC_InterpLike", "MC_InterpLike_refute.cfg", workers=4, expect_violation="LandsOnLike")
     rng = random.Random(ctx.seed * 15485863 + 101)
     cases = [gen_case(rng, k + 1) for k in range(12000 if thorough else 1500)]
     recs = ctx.pmap(execute, cases)
